@@ -59,6 +59,10 @@ def main():
             return 0
         if args.what == "selftest-determinism":
             return selftest.determinism(seed, quick=args.tier == "quick")
+        if args.what == "selftest-fs-fidelity":
+            from props import c16
+
+            return c16.fs_fidelity(seed)
         if args.what == "selftest-fidelity":
             from props import c17
 
